@@ -102,8 +102,8 @@ def _worker(args):
 
 def check(tier):
     ck = core.Check("C15", tier)
-    shards, n = (16, 2500) if tier == "quick" else (64, 8000)
-    res = core.pmap(_worker, [(ck.seed, i, n, "asan") for i in range(shards)])
+    shards, n = (16, 2500) if tier == "quick" else (256, 8000)
+    res = core.pmap(_worker, [(ck.seed, i, n, "asan" if i % 4 != 3 else "asan-small") for i in range(shards)])
     counters = sem.merge(ck, res)
     ck.cov["rule"] = ("random histories of 4-24 calls over up to 3 objects with arbitrary int arguments to every setter "
                       "(incl. INT_MIN/INT_MAX), good and defective definitions, parses with token streams that in 25% "
